@@ -32,10 +32,14 @@ use bio_types::annot;
 use bio_types::annot::loc::Loc;
 use bio_types::strand;
 
+/// The input followed by a final line break: `csv` only recognises a comment line that is terminated, so a
+/// file ending in a comment without a trailing newline would otherwise yield that comment as a record.
+type Terminated<R> = io::Chain<R, &'static [u8]>;
+
 /// A BED reader.
 #[derive(Debug)]
 pub struct Reader<R: io::Read> {
-    inner: csv::Reader<R>,
+    inner: csv::Reader<Terminated<R>>,
 }
 
 impl Reader<fs::File> {
@@ -55,7 +59,7 @@ impl<R: io::Read> Reader<R> {
                 .delimiter(b'\t')
                 .has_headers(false)
                 .comment(Some(b'#'))
-                .from_reader(reader),
+                .from_reader(reader.chain(&b"\n"[..])),
         }
     }
 
@@ -69,7 +73,7 @@ impl<R: io::Read> Reader<R> {
 
 /// An iterator over the records of a BED file.
 pub struct Records<'a, R: io::Read> {
-    inner: csv::DeserializeRecordsIter<'a, R, Record>,
+    inner: csv::DeserializeRecordsIter<'a, Terminated<R>, Record>,
 }
 
 impl<'a, R: io::Read> Iterator for Records<'a, R> {
